@@ -56,6 +56,11 @@ CLAIMED = {
   "ModZip.tla assigns each of 26 entries (one path per rule of the package documentation / CheckFilePath: dot-dot, absolute, backslash, trailing dot, reserved names, invalid UTF-8, cue.mod case variants, nested module, local-module file, licence, hg archival file, file-and-directory, case collision, symlink, oversize) its verdict in the context of an archive and checks that a created zip is acceptable and where the checkers may differ. Every subset of <= 3 (thorough 4) entries is checked as a file list, as a directory when representable (must agree with the file list), created + CheckZip + Unzip (round trip reproduces exactly the valid files), and written raw as a zip, also with lying declared sizes, a directory entry and a duplicate name; every Unzip runs in a scratch directory that is walked afterwards: nothing outside the target, only regular files, never more bytes than declared.",
   "trusted: TLC, the transcription of the documentation; for a colliding pair only 'at least one rejected' is claimed; a zip entry carrying symlink mode bits may be accepted or rejected (the documentation and the extraction behaviour differ), extraction safety is checked independently. Canary (flipped archive verdict) must be noticed.",
   "DESIGN.md §3 C15"),
+ "C13": ("model_checking",
+  "TLA+ independent JSON Schema validator (JsonSchema.tla: Valid(schema, instance) for the keyword subset), checked by TLC; every schema state translated by the real importer and every instance unified with the generated CUE; Generate + Extract round trip",
+  "JsonSchema.tla defines draft 2020-12 validity for type, enum, const, numeric and string bounds, pattern, properties, required, additionalProperties, patternProperties, propertyNames, min/maxProperties, items, min/maxItems, uniqueItems, contains, allOf/anyOf/oneOf/not, if/then/else and $defs/$ref over a 28-value instance universe, with sanity theorems (double negation, allOf = intersection, oneOf within anyOf). Every schema state (all keywords with all leaf sub-schemas, all leaf pairs under the combinators, if/then/else over a small set; thorough: sampled keyword pairs and depth-2 nesting) is rendered as JSON, run through jsonschema.Extract, compiled, and every instance is unified with it in-language; the verdict must equal Valid. Then jsonschema.Generate followed by Extract must accept the same instances. Five defect classes found on the unchanged tree are recorded as known findings.",
+  "trusted: TLC, the Valid transcription, the JSON rendering; schemas the importer refuses are counted, not judged. Canary (flipped verdict set) must be noticed.",
+  "DESIGN.md §3 C13"),
 }
 
 NOT_YET = "check not built yet in this round (see DESIGN.md §8 for the order of construction)"
